@@ -44,4 +44,51 @@ package run
 //@   requires trackerok(tracker) && confStats != nil
 //@   modifies tracker.schema.OnLocated, confStats.FixedFields, confStats.UnusedFields
 //@   loop 1: invariant -1 <= rangeindex && rangeindex < len(tracker.fieldsFixed) && fieldNames === tracker.schema.fieldNames && trackerok(tracker)
-//@   loop 2: invariant -1 <= rangeindex#2 && rangeindex#2 < len(tracker.fieldsInUse) && fieldNames === tracker.schema.fieldNames && trackerok(tracker)
+//@   loop 2: invariant -1 <= rangeindex#2#2 && rangeindex#2#2 < len(tracker.fieldsInUse) && fieldNames === tracker.schema.fieldNames && trackerok(tracker)
+
+// ==== reload (C17): a reload whose new configuration is rejected changes nothing but the failure count ===========================
+// lastreloaderr: ghost - the error initiateReload returned
+//@ ghost var lastreloaderr error
+//@ fieldspec ReloadableOrchestrator.initiateReload() (CompleteReloadingFunc, error)
+//@   modifies lastreloaderr
+//@   ghostset lastreloaderr := result.1
+//@   ensures result.1 == nil ==> result.0 != nil
+//@ extern func run.CompleteReloadingFunc() base.Orchestrator
+//@   modifies nothing
+//@   ensures result != nil && isfresh(result)
+
+// sinkowner[s]: ghost - the orchestrator that created sink s. Lock invariant of downstreamMutex: every registered sink
+// belongs to the live orchestrator. Taking the write lock means other goroutines may have registered or closed sinks
+// in the meantime: the guarded table is arbitrary at that point, except that the invariant holds.
+//@ ghost var sinkowner [1099511627776]int
+//@ ghost var lockorc *ReloadableOrchestrator
+//@ pure func lockinv(o *ReloadableOrchestrator) bool := forall i int :: 0 <= i && i < base.MaxClientNumber && o.downstreamSinks[i] != nil ==> sinkowner[ref(o.downstreamSinks[i])] == ref(o.downstream)
+//@ extern func (o base.Orchestrator) NewSink(clientAddress string, clientNumber base.ClientNumber) base.BufferReceiverSink
+//@   modifies sinkowner
+//@   ghostset sinkowner[ref(result)] := ref(o)
+//@   ensures result != nil && isfresh(result)
+//@   ensures forall s int :: s != ref(result) ==> sinkowner[s] == old(sinkowner[s])
+//@ extern func (o base.Orchestrator) Shutdown()
+//@   modifies nothing
+//@ extern func (s base.BufferReceiverSink) Close()
+//@   modifies nothing
+//@ fieldspec ReloadableOrchestrator.downstreamMutex.Lock(m *xsync.RBMutex)
+//@   modifies run.ReloadableOrchestrator.downstreamSinks, run.ReloadableOrchestrator.downstreamAddrs
+//@   ensures lockinv(lockorc)
+//@ fieldspec ReloadableOrchestrator.downstreamMutex.Unlock(m *xsync.RBMutex)
+//@   requires[every-registered-sink-belongs-to-the-live-orchestrator] lockinv(lockorc)
+//@ func (orc *ReloadableOrchestrator) reload()
+//@   property C17
+//@   requires orc != nil && orc.initiateReload != nil && orc.logger != nil && orc.downstreamMutex != nil && orc.downstream != nil && reloadFailureCounter != nil && reloadSuccessCounter != nil
+//@   requires ref(reloadFailureCounter) != ref(reloadSuccessCounter)
+//@   define   lockorc == orc
+//@   modifies everything
+//@   ensures[failed-reload-keeps-the-orchestrator] lastreloaderr != nil ==> orc.downstream == old(orc.downstream)
+//@   ensures[failed-reload-keeps-the-sinks] lastreloaderr != nil ==> orc.downstreamSinks === old(orc.downstreamSinks)
+//@   ensures[after-a-reload-every-registered-sink-belongs-to-the-new-orchestrator] lastreloaderr == nil ==> lockinv(orc)
+//@   ensures[failed-reload-counts-one-failure] lastreloaderr != nil ==> mval[ref(reloadFailureCounter)] == old(mval[ref(reloadFailureCounter)]) + 1 && mval[ref(reloadSuccessCounter)] == old(mval[ref(reloadSuccessCounter)])
+//@   ensures[failed-reload-shuts-nothing-down] lastreloaderr != nil ==> ncalls("base.Orchestrator.Shutdown") == old(ncalls("base.Orchestrator.Shutdown")) && ncalls("base.BufferReceiverSink.Close") == old(ncalls("base.BufferReceiverSink.Close"))
+//@   loop 2: invariant -1 <= rangeindex#2 && rangeindex#2 < 262144 && orc.downstream === atentry(orc.downstream) && orc.downstream != nil && orc.logger != nil && orc.downstreamMutex != nil
+//@   loop 2: invariant[recreated-so-far] forall j int :: 0 <= j && j <= rangeindex#2 ==> orc.downstreamSinks[j] == nil || sinkowner[ref(orc.downstreamSinks[j])] == ref(orc.downstream)
+//@   loop 2: invariant[rest-untouched] forall j int :: rangeindex#2 < j && j < 262144 ==> orc.downstreamSinks[j] === atentry(orc.downstreamSinks[j])
+//@   ensures[successful-reload-counts-one-success] lastreloaderr == nil ==> mval[ref(reloadSuccessCounter)] == old(mval[ref(reloadSuccessCounter)]) + 1
